@@ -1278,6 +1278,9 @@ func fnPkgPath(fn *ssa.Function) string {
 // executed (not stubbed) packages outside the module
 var execStd = map[string]bool{"container/list": true, "": true, "sort": false}
 
+// execFuncs: single functions of otherwise unexecuted packages that are plain Go and run as real code
+var execFuncs = map[string]bool{"sort.Search": true, "sort.SearchInts": true}
+
 func (w *Worker) invoke(s *State, f *Frame, fnv Value, args []Value, dst ssa.Value, kind string) {
 	advance := func() {
 		if f.ip < len(f.block.Instrs) {
@@ -1320,7 +1323,7 @@ func (w *Worker) invoke(s *State, f *Frame, fnv Value, args []Value, dst ssa.Val
 			return
 		}
 		pkgPath := fnPkgPath(fn.fn)
-		inMod := strings.HasPrefix(pkgPath, modPrefix) || execStd[pkgPath] || s.job.execPkgs[pkgPath]
+		inMod := strings.HasPrefix(pkgPath, modPrefix) || execStd[pkgPath] || s.job.execPkgs[pkgPath] || execFuncs[name]
 		if fn.fn.Name() == "init" && !strings.HasPrefix(pkgPath, modPrefix) {
 			advance()
 			return
